@@ -74,6 +74,41 @@ Theorem C33_pack_total :
 Proof. exact pack_total. Qed.
 Print Assumptions C33_pack_total.
 
+(* The object keeps _flags between calls.  _pack is a function of the attribute fields only: the
+   bytes written and the flags held afterwards do not depend on the flags held before *)
+Theorem C33_pack_ignores_prior_flags :
+  forall (p1 p2 : Z) (a : attrs),
+    pack_obj p1 a = pack_obj p2 a /\ pack_obj p1 a = (pack a, flags_of a).
+Proof. exact pack_obj_ignores_prior. Qed.
+Print Assumptions C33_pack_ignores_prior_flags.
+
+(* hence the round trip for an object with any history (decoded or encoded before, then edited) *)
+Theorem C33_roundtrip_any_history :
+  forall (prior : Z) (a : attrs) (bs rest : list Z),
+    NoDup (map fst (a_ext a)) -> fst (pack_obj prior a) = Ok bs ->
+    unpack (bs ++ rest) 0 = (snd (pack_obj prior a), normalize a, length bs).
+Proof. exact roundtrip_any_history. Qed.
+Print Assumptions C33_roundtrip_any_history.
+
+(* decode anything, replace the fields, encode, decode: the new fields and exactly their flags *)
+Theorem C33_decode_edit_encode :
+  forall (buf : list Z) (pos : nat) (a' : attrs) (bs rest : list Z),
+    NoDup (map fst (a_ext a')) ->
+    fst (pack_obj (fst (fst (unpack buf pos))) a') = Ok bs ->
+    unpack (bs ++ rest) 0 = (flags_of a', normalize a', length bs).
+Proof. exact decode_edit_encode. Qed.
+Print Assumptions C33_decode_edit_encode.
+
+(* a _pack that does not start with self._flags = 0 leaks the prior flags *)
+Theorem C33_noreset_refuted :
+  let empty := MkAttrs None None None None None None [] in
+  pack_obj FLAG_EXTENDED empty = (Ok [0; 0; 0; 0], 0) /\
+  pack_obj_noreset FLAG_EXTENDED empty = (Ok [128; 0; 0; 0; 0; 0; 0; 0], FLAG_EXTENDED) /\
+  pack_obj_noreset FLAG_AMTIME empty = (Raise TypeErr, FLAG_AMTIME) /\
+  exists prior a, pack_obj_noreset prior a <> pack_obj prior a.
+Proof. exact noreset_leaks. Qed.
+Print Assumptions C33_noreset_refuted.
+
 (* the code before the repair (self.attr[msg.get_string()] = msg.get_string(), right-hand side
    evaluated first) returns every extended pair with key and value exchanged *)
 Theorem C33_v0_swap_refuted :
